@@ -15,8 +15,8 @@ Lemma sum_put l c b b' : sm_get c l = Some b ->
 Proof.
   induction l as [|[k v] r IH]; simpl; intros H; [discriminate|].
   destruct (c =? k) eqn:E.
-  - inversion H; subst. simpl. lia.
-  - destruct (c <? k); [discriminate|]. simpl. specialize (IH H). lia.
+  - inversion H; subst. unfold bucket_size. simpl. lia.
+  - destruct (c <? k); [discriminate|]. specialize (IH H). unfold bucket_size in *. simpl in *. lia.
 Qed.
 
 Lemma sum_del l c b : sm_get c l = Some b ->
@@ -25,8 +25,8 @@ Lemma sum_del l c b : sm_get c l = Some b ->
 Proof.
   induction l as [|[k v] r IH]; simpl; intros H; [discriminate|].
   destruct (c =? k) eqn:E.
-  - inversion H; subst. simpl. lia.
-  - destruct (c <? k); [discriminate|]. simpl. specialize (IH H). lia.
+  - inversion H; subst. unfold bucket_size. simpl. lia.
+  - destruct (c <? k); [discriminate|]. specialize (IH H). unfold bucket_size in *. simpl in *. lia.
 Qed.
 
 Lemma meta_size_set m c b b' : bucket m c = Some b ->
@@ -106,24 +106,25 @@ Qed.
 
 (* ---------------------------------------------------------------- garbage lists *)
 
-Lemma firstn_nil {A} n (l : list A) : firstn (S n) l = [] -> l = [].
-Proof. destruct l; simpl; auto. discriminate. Qed.
+Lemma firstn_nil {A} n (l : list A) : (0 < n)%nat -> firstn n l = [] -> l = [].
+Proof. destruct n; [lia|]. destruct l; simpl; auto. discriminate. Qed.
 
-Lemma garbage_loop_nil bs n : forall num,
-  garbage_loop bs (S n) num = [] -> forallb (fun cb : cid * cstate => quiet_bucket (snd cb)) bs = true.
+Lemma garbage_loop_nil bs limit : (0 < limit)%nat -> forall num,
+  garbage_loop bs limit num = [] -> forallb (fun cb : cid * cstate => quiet_bucket (snd cb)) bs = true.
 Proof.
-  induction bs as [|[c0 b0] r IH]; intros num H; simpl in *; auto.
-  remember (firstn (S n) (if cgc b0 then sm_keys (objs b0) else sm_keys (garb b0))) as l0 eqn:F.
+  intros L. induction bs as [|[c0 b0] r IH]; intros num H; simpl in *; auto.
+  remember (firstn limit (if cgc b0 then sm_keys (objs b0) else sm_keys (garb b0))) as l0 eqn:F.
   destruct l0 as [|i l].
   - destruct (cgc b0) eqn:Cg; [discriminate|].
-    symmetry in F. apply firstn_nil in F. unfold sm_keys in F. apply map_eq_nil in F.
+    symmetry in F. apply (firstn_nil limit _ L) in F. unfold sm_keys in F. apply map_eq_nil in F.
     unfold quiet_bucket. rewrite Cg, F. simpl. eapply IH; eauto.
-  - destruct (Nat.leb (S n) (num + length (i :: l))); discriminate.
+  - destruct (Nat.leb limit (num + length (i :: l))); discriminate.
 Qed.
 
 Lemma view_garbage_nil m limit : (0 < limit)%nat -> view_garbage m limit = [] -> garbage_free m = true.
 Proof.
-  intros L H. unfold view_garbage in H. destruct limit as [|n]; [lia|]. unfold garbage_free. eapply garbage_loop_nil; eauto.
+  intros L H. unfold view_garbage in H. destruct limit as [|n]; [lia|]. unfold garbage_free.
+  eapply (garbage_loop_nil _ (S n)); eauto.
 Qed.
 
 (* one GC pass either removes something or finds the garbage lists empty *)
